@@ -28,16 +28,20 @@ enum Cls { WF, ILL, FREE };
 template <class T> T nth(const set<T>& s, size_t k) { auto it = s.begin(); advance(it, static_cast<long>(k)); return *it; }
 
 struct World {
-  vf::Ctx& c; const bool enumMode; const size_t maxNodes;
+  vf::Ctx& c; const bool enumMode; size_t maxNodes;
   shared_ptr<PubGraph> g; GModel gm; vector<ObsWorld> obs; int nextTag = 1;
-  int nLinks = 0, illRaised = 0; bool ntDelete = false, ntDirection = false;
+  unique_ptr<ObsWorld2> conv;  // converted copy (other object types) of an observer, registered on the same graph; looks on
+  int nLinks = 0, illRaised = 0; bool ntDelete = false, ntDirection = false, ntSparse = false, ntConvert = false;
+  // random histories only: plan of the history (0 = one weight table for the whole history; 1 = stages, see stepOp),
+  // position in the history, and how often an operand is a live item (absent operands in 2 of liveBias*n+2 draws)
+  int plan = 0, opNo = 0, nOps = 1; size_t liveBias = 3;
   string what;  // description of the current operation
 
   World(vf::Ctx& ctx, bool en, size_t mx, bool directed) : c(ctx), enumMode(en), maxNodes(mx), g(new PubGraph(directed)) {
     gm.directed = directed;
     ObsWorld W; W.o.reset(new Obs(shared_ptr<GlobalGraph>(g))); obs.push_back(std::move(W));
   }
-  ~World() { while (!obs.empty()) obs.pop_back(); }
+  ~World() { conv.reset(); while (!obs.empty()) obs.pop_back(); }
 
   // The operation belongs to the input class of a known finding.  In a random history the operation is left out (the
   // history goes on behind it); in the exhaustive enumeration the sequence is dropped (shorter ones are enumerated anyway).
@@ -69,9 +73,14 @@ struct World {
     unsigned rot = enumMode ? 1 + static_cast<unsigned>(vf::hashStr(c.desc.str()) % 97) : ++tick;
     checkGraph(c, *g, gm, what, rot);
     for (size_t k = 0; k < obs.size(); ++k) checkObs(c, obs[k], gm, what + " obs" + to_string(k), rot);
+    if (conv) checkObs(c, *conv, gm, what + " conv", rot);
   }
 
   // ---- model updates
+  template <class F> void eachModel(F f) { for (auto& W : obs) f(W.m); if (conv) f(conv->m); }
+  template <class F> bool anyModel(F f) const { for (const auto& W : obs) if (f(W.m)) return true; return conv && f(conv->m); }
+  // the node ids are sparse: some live id is not smaller than the number of live nodes (only after deletions)
+  bool sparseIds() const { return !gm.nodes.empty() && *gm.nodes.rbegin() >= gm.nodes.size(); }
   vector<Id> adoptNewNodes(size_t k) {
     vector<Id> fresh; for (Id n : g->getAllNodes()) if (!gm.nodes.count(n)) fresh.push_back(n);
     CHECK(fresh.size() == k, what << ": " << fresh.size() << " new node(s) appeared, expected " << k);
@@ -92,21 +101,21 @@ struct World {
   }
   void dropEdge(Id e) {
     gm.edges.erase(e);
-    for (auto& W : obs) { int t; if (W.m.tagOfEdge(e, t)) { W.m.eId.erase(t); W.m.eIdx.erase(t); } }
+    eachModel([&](OModel& m) { int t; if (m.tagOfEdge(e, t)) { m.eId.erase(t); m.eIdx.erase(t); } });
     if (nLinks >= 2) ntDelete = true;
   }
   void dropNode(Id n) {
     for (Id e : gm.incE(n)) dropEdge(e);
     gm.nodes.erase(n);
-    for (auto& W : obs) { int t; if (W.m.tagOfNode(n, t)) { W.m.nId.erase(t); W.m.nIdx.erase(t); } }
+    eachModel([&](OModel& m) { int t; if (m.tagOfNode(n, t)) { m.nId.erase(t); m.nIdx.erase(t); } });
     if (nLinks >= 2) ntDelete = true;
   }
 
   // ---- predicates of known findings
   bool collide(Id k) const { for (Id i = 0; i < k; ++i) if (gm.edges.count(gm.nextAuto + i)) return true; return false; }
-  bool edgeIdxHit(Id e) const { for (const auto& W : obs) { int t; if (W.m.tagOfEdge(e, t) && W.m.eIdx.count(t)) return true; } return false; }
-  bool nodeIdxHit(Id n) const { for (const auto& W : obs) { int t; if (W.m.tagOfNode(n, t) && W.m.nIdx.count(t)) return true; } return false; }
-  bool objectElsewhere(Id n, const ObsWorld* except) const { for (const auto& W : obs) { int t; if (&W != except && W.m.tagOfNode(n, t)) return true; } return false; }
+  bool edgeIdxHit(Id e) const { return anyModel([&](const OModel& m) { int t; return m.tagOfEdge(e, t) && m.eIdx.count(t) > 0; }); }
+  bool nodeIdxHit(Id n) const { return anyModel([&](const OModel& m) { int t; return m.tagOfNode(n, t) && m.nIdx.count(t) > 0; }); }
+  bool objectElsewhere(Id n, const ObsWorld* except) const { const OModel* ex = except ? &except->m : nullptr; return anyModel([&](const OModel& m) { int t; return &m != ex && m.tagOfNode(n, t); }); }
   // removing edge e from the graph runs into a known finding
   bool edgeRemovalKnown(Id e) {
     const auto& p = gm.edges.at(e);
@@ -125,9 +134,10 @@ struct World {
   Id pickNode(bool& live) {
     size_t n = gm.nodes.size();
     if (enumMode) { size_t k = static_cast<size_t>(c.below(n + 1)); live = k < n; return live ? nth(gm.nodes, k) : gm.absentFresh(); }
-    size_t k = static_cast<size_t>(c.below(3 * n + 2));  // random histories: absent operands in about 2 of 3n+2 draws
-    live = k < 3 * n; if (live) return nth(gm.nodes, k % n);
-    if (k > 3 * n) for (Id x : gm.everNode) if (!gm.nodes.count(x)) return x;  // a deleted id
+    const size_t f = liveBias;
+    size_t k = static_cast<size_t>(c.below(f * n + 2));  // random histories: absent operands in about 2 of 3n+2 draws
+    live = k < f * n; if (live) return nth(gm.nodes, k % n);
+    if (k > f * n) for (Id x : gm.everNode) if (!gm.nodes.count(x)) return x;  // a deleted id
     return gm.absentFresh();
   }
   Id pickEdge(bool& live) {
@@ -141,6 +151,18 @@ struct World {
       a = gm.edges.at(e).first; b = gm.edges.at(e).second; if (c.flag()) swap(a, b); la = lb = true; return;
     }
     a = pickNode(la); b = pickNode(lb);
+  }
+  // staged random histories: mostly link a pair of live nodes that is not linked yet in either direction (self-loops
+  // included), so that the graph gets dense within the operation budget; with `om` only nodes that carry an object there
+  bool freshPair(Id& a, Id& b, const OModel* om) {
+    if (enumMode || plan == 0 || c.below(4) == 0) return false;
+    vector<pair<Id, Id>> cand;
+    for (Id x : gm.nodes) for (Id y : gm.nodes) {
+      int t; if (om && !(om->tagOfNode(x, t) && om->tagOfNode(y, t))) continue;
+      if (gm.from(x, y).empty() && gm.from(y, x).empty()) cand.push_back({x, y});
+    }
+    if (cand.empty()) return false;
+    const auto& p = cand[static_cast<size_t>(c.below(cand.size()))]; a = p.first; b = p.second; return true;
   }
   ObsWorld& pickObs() { return obs[static_cast<size_t>(c.below(obs.size()))]; }
   // node object: k-th live one, or one that is not in the observer (a formerly deleted one if any, else a never associated one)
@@ -202,7 +224,8 @@ void World::graphOp(int op) {
       vector<Id> nn = adoptNewNodes(1); CHECK(nn[0] == r, what << " returned " << r << " but node " << nn[0] << " appeared");
       break; }
     case 1: {  // link(a,b)
-      a = pickNode(la); b = pickNode(lb); d << "link(" << a << "," << b << ")"; say(d.str());
+      if (freshPair(a, b, nullptr)) la = lb = true; else { a = pickNode(la); b = pickNode(lb); }
+      d << "link(" << a << "," << b << ")"; say(d.str());
       if (!(la && lb)) { if (known("C14-link-absent-node")) return; run(ILL, [&] { g->link(a, b); }); break; }
       if (collide(1) && known("C14-edgeid-collision")) return;
       if (!gm.from(a, b).empty()) {
@@ -282,12 +305,14 @@ void World::graphOp(int op) {
       // "the resulting directions are totally arbitrary": each edge keeps its end points, in the order getNodes reports
       for (auto& kv : gm.edges) { pair<Id, Id> p = g->getNodes(kv.first); CHECK(p == kv.second || p == make_pair(kv.second.second, kv.second.first), what << " changed the end points of edge " << kv.first); kv.second = p; }
       gm.directed = true; if (!gm.edges.empty()) ntDirection = true;
+      if (sparseIds() && gm.edges.size() >= 2) ntSparse = true;
       break; }
     case 8: {  // makeUndirected
       say("makeUndirected()");
       if (gm.directed && gm.reciprocal()) { run(ILL, [&] { g->makeUndirected(); }); break; }
       run(WF, [&] { g->makeUndirected(); });
       if (gm.directed && !gm.edges.empty()) ntDirection = true;
+      if (gm.directed && sparseIds() && gm.edges.size() >= 2) ntSparse = true;
       gm.directed = false;
       break; }
     case 9: case 10: {  // createNodeOnEdge(e) / createNodeFromEdge(e)
@@ -345,7 +370,10 @@ void World::obsOp(int op) {
       Id e = adoptOneEdge(a, nn[0]); if (q) m.eId[q->tag] = e; m.eTable = max(m.eTable, e + 1);
       break; }
     case 14: {  // link(A, B, edgeObj | null)
-      NP pa = pickN(W, la), pb = pickN(W, lb); EP q = addableE(W, le, true);
+      NP pa, pb; Id fa = 0, fb = 0; int ta = 0, tb = 0;
+      if (freshPair(fa, fb, &m) && m.tagOfNode(fa, ta) && m.tagOfNode(fb, tb)) { pa = W.nObj.at(ta); pb = W.nObj.at(tb); la = lb = true; }
+      else { pa = pickN(W, la); pb = pickN(W, lb); }
+      EP q = addableE(W, le, true);
       say(on + "link(" + nm(pa) + "," + nm(pb) + "," + em(q) + ")");
       if (!la || !lb || le) { run(ILL, [&] { o.link(pa, pb, q); }); break; }
       Id a = m.nId.at(pa->tag), b = m.nId.at(pb->tag);
@@ -458,25 +486,45 @@ void World::lifeOp(int op) {
       say("obs1=copy(obs0)");
       if (obs.size() > 1) obs.pop_back();
       unique_ptr<Obs> cp; run(WF, [&] { cp.reset(new Obs(*obs[0].o)); });
-      obs.push_back(adoptCopy(c, std::move(cp), obs[0], gm, what));
+      obs.push_back(adoptCopy<ObsWorld>(c, std::move(cp), obs[0], gm, what));
       break; }
     case 27: {  // fresh = obs0 through operator= (a new observer of its own empty graph is assigned to), or obs1 = obs0 when obs1 exists
       if (obs.size() > 1) {
         say("obs1=obs0 (operator=)");
         if (known("C14-obs-assign-not-reset")) return;
         // the target keeps no relation of its own: same as a fresh copy. It already observes the same graph.
-        if (run(FREE, [&] { *obs[1].o = *obs[0].o; })) { unique_ptr<Obs> keep = std::move(obs[1].o); obs.pop_back(); obs.push_back(adoptCopy(c, std::move(keep), obs[0], gm, what)); }
+        if (run(FREE, [&] { *obs[1].o = *obs[0].o; })) { unique_ptr<Obs> keep = std::move(obs[1].o); obs.pop_back(); obs.push_back(adoptCopy<ObsWorld>(c, std::move(keep), obs[0], gm, what)); }
         break;  // when it raised, obs1 must be what it was
       }
       say("obs1=new observer; obs1=obs0 (operator=)");
       unique_ptr<Obs> t(new Obs(shared_ptr<GlobalGraph>(new PubGraph(gm.directed))));
       run(WF, [&] { *t = *obs[0].o; });
       CHECK(t->getGraph().get() == g.get(), what << ": the assigned observer does not observe the source's graph");
-      obs.push_back(adoptCopy(c, std::move(t), obs[0], gm, what));
+      obs.push_back(adoptCopy<ObsWorld>(c, std::move(t), obs[0], gm, what));
       break; }
-    default: {  // drop the second observer
+    case 28: {  // drop the second observer
       say("drop obs1"); if (obs.size() < 2) return nop();
       obs.pop_back();
+      break; }
+    case 29: {  // conv = converting copy of an observer: other node and edge object types, same graph
+      ObsWorld& W = pickObs(); say("conv=convert(obs" + to_string(obsNo(W)) + ")");
+      conv.reset();
+      unique_ptr<Obs2> cp; run(WF, [&] { cp.reset(new Obs2(*W.o)); });
+      CHECK(cp->getGraph().get() == g.get(), what << ": the converted copy does not observe the source's graph");
+      conv.reset(new ObsWorld2(adoptCopy<ObsWorld2>(c, std::move(cp), W, gm, what)));
+      if (!W.m.nIdx.empty() || !W.m.eIdx.empty()) ntConvert = true;
+      break; }
+    case 30: {  // obs1 = converting copy of conv (back to the first object types): the histories go on operating on it
+      say("obs1=convert(conv)"); if (!conv) return nop();
+      if (obs.size() > 1) obs.pop_back();
+      unique_ptr<Obs> cp; run(WF, [&] { cp.reset(new Obs(*conv->o)); });
+      CHECK(cp->getGraph().get() == g.get(), what << ": the converted copy does not observe the source's graph");
+      obs.push_back(adoptCopy<ObsWorld>(c, std::move(cp), *conv, gm, what));
+      if (!conv->m.nIdx.empty() || !conv->m.eIdx.empty()) ntConvert = true;
+      break; }
+    default: {  // drop the converted observer
+      say("drop conv"); if (!conv) return nop();
+      conv.reset();
       break; }
   }
 }
@@ -484,41 +532,64 @@ void World::lifeOp(int op) {
 // full model state, object tags replaced by their rank (the harness' names do not matter)
 string World::stateKey() const {
   ostringstream o; o << gm.str() << "|r" << gm.rootSet << gm.root << "|a" << gm.nextAuto << show(gm.everNode) << show(gm.autoEdge);
-  for (const auto& W : obs) {
+  auto one = [&o](const auto& W) {
     o << "|N"; size_t dead = 0;
     for (const auto& kv : W.nObj) { auto it = W.m.nId.find(kv.first); if (it == W.m.nId.end()) { ++dead; continue; } o << it->second; auto ix = W.m.nIdx.find(kv.first); if (ix != W.m.nIdx.end()) o << "#" << ix->second; o << ","; }
     o << "d" << (dead ? 1 : 0) << "E"; dead = 0;
     for (const auto& kv : W.eObj) { auto it = W.m.eId.find(kv.first); if (it == W.m.eId.end()) { ++dead; continue; } o << it->second; auto ix = W.m.eIdx.find(kv.first); if (ix != W.m.eIdx.end()) o << "#" << ix->second; o << ","; }
     o << "d" << (dead ? 1 : 0) << "t" << W.m.nTable << "," << W.m.eTable;
-  }
+  };
+  for (const auto& W : obs) one(W);
+  if (conv) { o << "|conv"; one(*conv); }
   return o.str();
 }
 
 void World::stepOp() {
   int op;
-  if (enumMode) op = static_cast<int>(c.below(graphOnly ? 12 : 29));
+  if (enumMode) op = static_cast<int>(c.below(graphOnly ? 12 : 32));
   else {
-    static const int tab[] = {0, 1, 2, 3, 4, 5, 6, 7, 8, 9, 10, 11, 12, 13, 14, 15, 16, 17, 18, 19, 20, 21, 22, 23, 24, 25, 26, 27, 28};
-    op = tab[c.weighted({6, 8, 5, 3, 3, 2, 3, 1, 1, 2, 1, 1, 5, 5, 6, 4, 3, 2, 1, 2, 1, 1, 2, 2, 2, 2, 1, 1, 1})];
+    // operation weights, in the order of the opcodes 0..31:
+    //  createNode link unlink deleteNode createNodeFromNode link(id) switchNodes makeDirected makeUndirected createNodeOnEdge createNodeFromEdge setRoot |
+    //  obs: createNode createNode(from) link unlink deleteNode associateNode dissociateNode associateEdge dissociateEdge setEdgeLinking
+    //       setNodeIndex addNodeIndex setEdgeIndex addEdgeIndex | obs1=copy obs1=assign drop-obs1 conv=convert obs1=convert(conv) drop-conv
+    if (plan == 0) op = static_cast<int>(c.weighted({6, 8, 5, 3, 3, 2, 3, 1, 1, 2, 1, 1,  5, 5, 6, 4, 3, 2, 1, 2, 1, 1, 2, 2, 2, 2,  1, 1, 1, 1, 1, 1}));
+    else {
+      // staged history (the states a uniform mix of operations hardly ever reaches within 40 operations): first nodes
+      // are created AND deleted until the live ids lie above the live count, then the survivors are linked densely
+      // (self-loops included), then the direction is changed to and fro with further links, unlinks and deletions between
+      switch (opNo * 5 / nOps) {
+        case 0: case 1: op = static_cast<int>(c.weighted({8, 2, 0, 6, 1, 0, 0, 0, 1, 0, 0, 1,  5, 1, 1, 0, 4, 1, 0, 0, 0, 0, 1, 1, 0, 0,  1, 0, 0, 1, 0, 0})); break;
+        case 2: case 3: op = static_cast<int>(c.weighted({1, 14, 0, 1, 0, 2, 0, 0, 3, 0, 0, 0,  1, 0, 6, 0, 0, 0, 0, 1, 0, 0, 0, 0, 1, 1,  1, 0, 0, 1, 0, 0})); break;
+        default:        op = static_cast<int>(c.weighted({1, 5, 1, 1, 0, 0, 2, 6, 4, 1, 0, 0,  0, 0, 2, 1, 1, 0, 0, 0, 0, 0, 0, 0, 0, 0,  0, 1, 0, 0, 1, 0})); break;
+      }
+    }
     if (gm.nodes.size() < 3 && c.below(2) == 0) op = c.flag() ? 12 : 0;  // small graphs grow first
   }
+  ++opNo;
   if (op <= 11) graphOp(op); else if (op <= 25) obsOp(op); else lifeOp(op);
 }
 
-const char* NT = "history with a delete/unlink after >=2 links, or a direction change with >=1 edge, or an ill-formed call that raised";
+const char* NT = "history with a delete/unlink after >=2 links, or a direction change with >=1 edge, or an ill-formed call that raised, or a converting copy of an observer with an index";
 
 }  // namespace
 
 // ------------------------------------------------------------------ random histories: <= 40 operations over <= 8 nodes
 // (a call that does not come back within 10 CPU-seconds is a violation: every call must return or raise)
-LAW(H_history, RC, 5000, 250000, 260, NT, 10, true) {
+// Two plans (first draw after the direction): 0 = every operation drawn from one weight table, 1..40 operations, <= 8 live
+// nodes; 1 = staged history (create/delete churn, dense linking, direction changes; see stepOp), 12..40 operations,
+// <= 5..8 live nodes, fewer absent operands.  Both lie inside the quantifier; the stages only shift the weights.
+LAW(H_history, RC, 5000, 250000, 330, NT, 10, true) {
   bool directed = !c.flag();
-  World w(c, false, 8, directed);
-  int nops = c.irange(1, 40);
-  c.desc << (directed ? "directed" : "undirected") << ": ";
+  int plan = static_cast<int>(c.weighted({3, 2}));
+  World w(c, false, plan == 0 ? 8 : 8 - static_cast<size_t>(c.below(4)), directed);
+  int nops = plan == 0 ? c.irange(1, 40) : c.irange(12, 40);
+  w.plan = plan; w.nOps = nops; if (plan) w.liveBias = 8;
+  c.desc << (directed ? "directed" : "undirected") << (plan ? " staged" : "") << ": ";
   w.what = "initial state"; w.checkAll();
   for (int i = 0; i < nops; ++i) w.step();
-  c.nt(w.ntDelete || w.ntDirection || w.illRaised > 0);
+  c.nt(w.ntDelete || w.ntDirection || w.illRaised > 0 || w.ntConvert);
+  if (w.ntSparse) c.label("direction change with >=2 edges and node ids above the live count");
+  if (w.ntConvert) c.label("converting copy of an observer with an index");
   if (w.illRaised) c.label("ill-formed call raised");
   if (w.ntDelete) c.label("delete/unlink after >=2 links");
   if (w.ntDirection) c.label("direction change with an edge");
@@ -571,12 +642,12 @@ static void sequences(vf::Ctx& c, bool graphOnly, int lenQuick, int lenThorough,
   if (enumerating && !mine) throw vf::Skip();
   if (enumerating) w.checkAll();
   c.desc << " [" << len << " op(s)]";
-  c.nt(w.ntDelete || w.ntDirection || w.illRaised > 0);
+  c.nt(w.ntDelete || w.ntDirection || w.illRaised > 0 || w.ntConvert);
 }
 // every operation (graph, observer, copy/assign/drop): length <= 2 quick, <= 3 thorough
-LAW(E_sequences, ENUM, 16, ENUM_T, 0, NT, 3, true) { static std::unordered_map<uint64_t, uint64_t> seen; sequences(c, false, 2, 3, seen); }
+LAW(E_sequences, ENUM, 16, ENUM_T, 0, NT, 10, true) { static std::unordered_map<uint64_t, uint64_t> seen; sequences(c, false, 2, 3, seen); }
 // operations on the graph only (the observer of the start configuration looks on): length <= 3 quick, <= 4 thorough
-LAW(E_graph_sequences, ENUM, 16, ENUM_T, 0, NT, 3, true) { static std::unordered_map<uint64_t, uint64_t> seen; sequences(c, true, 3, 4, seen); }
+LAW(E_graph_sequences, ENUM, 16, ENUM_T, 0, NT, 10, true) { static std::unordered_map<uint64_t, uint64_t> seen; sequences(c, true, 3, 4, seen); }
 
 static struct Init { Init() { vf::G().resetHook = [] { vf::quietBpp(); vf::installAudit(); }; } } init_;
 VF_MAIN("C14")
